@@ -221,6 +221,7 @@ Proof. vm_compute. repeat apply conj; reflexivity. Qed.
 Example C07_float_nonvacuous :
   decode cbor KFloat64 [27; 0; 32; 0; 0; 0; 0; 0; 1] = Ok 4845873199050653696      (* 2^53+1 -> 2^53 (tie to even) *)
   /\ decode cbor KFloat64 [27; 0; 32; 0; 0; 0; 0; 0; 3] = Ok 4845873199050653698   (* 2^53+3 -> 2^53+4 *)
+  /\ decode cbor KFloat64 [27; 128; 0; 0; 0; 0; 0; 0; 0] = Ok 4890909195324358656   (* 2^63, unsigned: F07-7 *)
   /\ decode cbor KFloat32 [26; 1; 0; 0; 1] = Ok 1266679808                         (* 2^24+1 -> 2^24 *)
   /\ decode cbor KFloat64 [249; 60; 0] = Ok 4607182418800017408                    (* half 1.0 *)
   /\ decode cbor KFloat64 [249; 0; 1] = Ok 4499096027743125504                     (* smallest half subnormal 2^-24 *)
